@@ -8,7 +8,18 @@ import (
 
 	"github.com/PapaCharlie/go-restli/v2/fnv1a"
 	"github.com/PapaCharlie/go-restli/v2/restlicodec"
+	"github.com/PapaCharlie/go-restli/v2/restlidata/generated/com/linkedin/restli/common"
 )
+
+func coldExtra() []probe {
+	return []probe{
+		{"CollectionMetadata", `{"start":1}`, []string{"count", "links"}, func(d string) error { return decodeInto(d, new(common.CollectionMetadata)) }},
+		{"CollectionMetadata", `{"start":1,"count":2,"links":[]}`, nil, func(d string) error { return decodeInto(d, new(common.CollectionMetadata)) }},
+		{"UpdateStatus", `{}`, []string{"status"}, func(d string) error { return decodeInto(d, new(common.UpdateStatus)) }},
+		{"CreateStatus", `{"id":"1"}`, []string{"status"}, func(d string) error { return decodeInto(d, new(common.CreateStatus)) }},
+		{"CreateStatus", `{"status":201}`, nil, func(d string) error { return decodeInto(d, new(common.CreateStatus)) }},
+	}
+}
 
 // ---- phase 4: custom typeref registry
 type ct1 string
